@@ -1,5 +1,9 @@
 import RV.Proofs.Diag
 import RV.Props.C02
+import RV.Proofs.WHSteps
+import RV.Proofs.WHKepler
+import RV.Proofs.WHLink
+import RV.Proofs.WHDH
 /-
   C04 — isolated systems conserve momentum, angular momentum and (as advertised) energy;
   the diagnostics return the defined quantities.
@@ -68,6 +72,56 @@ theorem c04_energy_def (sqrt : K → K) (G off : K) (nActive : Nat) (tp : Bool) 
       intro L j _ hj
       have hj' : j < ps.size := by omega
       simp [mOf, xOf, Array.getElem?_eq_getElem hi', Array.getElem?_eq_getElem hj', sub_eq_add_neg]
+
+/-- change of inertial frame `x ↦ x − R`, `v ↦ v − V` (what `reb_simulation_move_to_com` does with
+    `(R, V)` = centre of mass) -/
+def shiftFrame (R V : V3 K) (ps : Array (Part K)) : Array (Part K) :=
+  ps.map fun p => { p with x := p.x - R, v := p.v - V }
+
+/-- **energy under a change of frame** (König): the value returned by `reb_simulation_energy` is
+    invariant under translations, and under a boost by `V` it changes by `−V·P + ½ M V²`, where `P`,
+    `M` are the momentum and mass of the interacting particles.  In particular after
+    `move_to_com` (all particles active, `V = P/M`) the energy is `E − P²/(2M)`; the potential part
+    and every pair term are untouched. -/
+theorem c04_energy_frame_shift (sqrt : K → K) (G off : K) (nActive : Nat) (tp : Bool) (ps : Array (Part K))
+    (hNa : nActive ≤ ps.size) (R V : V3 K) (h2 : (2 : K) ≠ 0) :
+    energy sqrt G off nActive tp (shiftFrame R V ps)
+      = energy sqrt G off nActive tp ps
+        - (∑ i ∈ Finset.Ico 0 (if tp then ps.size else nActive), mOf ps i * V3.dot V (vOf ps i))
+        + (1 / 2 : K) * (∑ i ∈ Finset.Ico 0 (if tp then ps.size else nActive), mOf ps i) * V3.dot V V := by
+  have hs : (shiftFrame R V ps).size = ps.size := by simp [shiftFrame]
+  have hint : (if tp = true then ps.size else nActive) ≤ ps.size := by split_ifs <;> omega
+  have hm : ∀ i, mOf (shiftFrame R V ps) i = mOf ps i := by
+    intro i; simp only [mOf, shiftFrame, Array.getElem?_map]; cases ps[i]? <;> simp
+  have hx : ∀ i, i < ps.size → xOf (shiftFrame R V ps) i = xOf ps i - R := by
+    intro i hi; simp [xOf, shiftFrame, Array.getElem?_eq_getElem hi]
+  have hv : ∀ i, i < ps.size → vOf (shiftFrame R V ps) i = vOf ps i - V := by
+    intro i hi; simp [vOf, shiftFrame, Array.getElem?_eq_getElem hi]
+  rw [c04_energy_def sqrt G off nActive tp _ (by rw [hs]; exact hNa), c04_energy_def sqrt G off nActive tp ps hNa, hs]
+  have e1 : ∀ i ∈ Finset.Ico 0 (if tp = true then ps.size else nActive),
+      (1 / 2 : K) * mOf (shiftFrame R V ps) i * ((vOf (shiftFrame R V ps) i).x * (vOf (shiftFrame R V ps) i).x
+        + (vOf (shiftFrame R V ps) i).y * (vOf (shiftFrame R V ps) i).y + (vOf (shiftFrame R V ps) i).z * (vOf (shiftFrame R V ps) i).z)
+      = (1 / 2 : K) * mOf ps i * ((vOf ps i).x * (vOf ps i).x + (vOf ps i).y * (vOf ps i).y + (vOf ps i).z * (vOf ps i).z)
+        - mOf ps i * V3.dot V (vOf ps i) + (1 / 2 : K) * mOf ps i * V3.dot V V := by
+    intro i hi
+    have := Finset.mem_Ico.mp hi
+    rw [hm, hv i (by omega)]
+    simp [V3.dot]; field_simp; ring
+  have e2 : ∀ i ∈ Finset.Ico 0 nActive, ∀ j ∈ Finset.Ico (i + 1) (if tp = true then ps.size else nActive),
+      -(G * mOf (shiftFrame R V ps) j * mOf (shiftFrame R V ps) i / sqrt (((xOf (shiftFrame R V ps) i).x - (xOf (shiftFrame R V ps) j).x) * ((xOf (shiftFrame R V ps) i).x - (xOf (shiftFrame R V ps) j).x)
+        + ((xOf (shiftFrame R V ps) i).y - (xOf (shiftFrame R V ps) j).y) * ((xOf (shiftFrame R V ps) i).y - (xOf (shiftFrame R V ps) j).y)
+        + ((xOf (shiftFrame R V ps) i).z - (xOf (shiftFrame R V ps) j).z) * ((xOf (shiftFrame R V ps) i).z - (xOf (shiftFrame R V ps) j).z)))
+      = -(G * mOf ps j * mOf ps i / sqrt (((xOf ps i).x - (xOf ps j).x) * ((xOf ps i).x - (xOf ps j).x)
+        + ((xOf ps i).y - (xOf ps j).y) * ((xOf ps i).y - (xOf ps j).y)
+        + ((xOf ps i).z - (xOf ps j).z) * ((xOf ps i).z - (xOf ps j).z))) := by
+    intro i hi j hj
+    have := Finset.mem_Ico.mp hi
+    have := Finset.mem_Ico.mp hj
+    rw [hm, hm, hx i (by omega), hx j (by omega)]
+    simp
+  rw [Finset.sum_congr rfl e1, Finset.sum_congr rfl (fun i hi => Finset.sum_congr rfl (e2 i hi))]
+  simp only [Finset.sum_add_distrib, Finset.sum_sub_distrib, ← Finset.mul_sum, ← Finset.sum_mul]
+  ring
 
 /-- running mass and mass-weighted sums of the first `n` particles -/
 def preM (ps : Array (Part K)) (n : Nat) : K := ∑ i ∈ Finset.range n, mOf ps i
@@ -211,6 +265,152 @@ theorem c04_leapfrog_steps (pref : K → Nat → Nat → K) (cfg : Cfg K) (dt : 
     push_cast
     ring
 
+/-! ### the Wisdom–Holman family in Jacobi coordinates
+
+  `eta m i = Σ_{k≤i} m_k`; `jacV N m x` = Jacobi coordinates of `x` (slot 0: centre of mass, slot
+  `i ≥ 1`: `x_i −` centre of mass of bodies `0..i−1`, the map of `inertial_to_jacobi_*`);
+  `muJ N m` = Jacobi masses (`M`, then `m_i η_{i−1}/η_i`).  `LJ`, `PJ` = angular momentum and
+  momentum computed from a Jacobi state. -/
+open RV.WH in
+/-- Jacobi decomposition (∀ N): `Σ m_i v_i = M·V_0` and `Σ m_i x_i × v_i = M R×V + Σ_{i≥1} μ_i x'_i × v'_i`.
+    So `PJ`, `LJ` of the Jacobi state held in `p_jh` *are* the inertial P and L.  Hypothesis: the
+    running masses `η_i` the transformation divides by are non-zero. -/
+theorem c04_jacobi_decomposition (N : Nat) (hN : 1 ≤ N) (m : Nat → K) (x v : Nat → V3 K)
+    (h : ∀ i, i < N → eta m i ≠ 0) :
+    (∑ i ∈ Finset.range N, m i • v i = PJ N m ⟨jacV N m x, jacV N m v⟩) ∧
+    (∑ i ∈ Finset.range N, m i • V3.cross (x i) (v i) = LJ N m ⟨jacV N m x, jacV N m v⟩) :=
+  ⟨momentum_jacobi N hN m v (h (N - 1) (by omega)), angmom_jacobi N hN m x v h⟩
+
+open RV.WH RV.Transform in
+/-- the declarative Jacobi map used above *is* the loop of `reb_particles_transform_inertial_to_jacobi_*`
+    as modelled in RV/Model/Transform.lean (C12; tied bit for bit to transformations.c): for every
+    Cartesian component, every number of (active) bodies, `jacFwd` returns the total mass and the
+    mass-weighted mean in slot 0 and `jrel` — the component of `jacV` — in slot `i ≥ 1`.
+    Hypothesis: the running masses the C code divides by are non-zero (`SumsNZ`). -/
+theorem c04_jacobi_map_is_transformations_c (m0 x0 : K) (act : List (K × K)) (h : SumsNZ m0 act) :
+    let l := (m0, x0) :: act
+    (jacFwd m0 x0 act []).m0 = eta (mF l) act.length ∧
+    (jacFwd m0 x0 act []).x0 = wsum (mF l) (fF l) act.length / eta (mF l) act.length ∧
+    (jacFwd m0 x0 act []).act = (List.range act.length).map (fun k => jrel (mF l) (fF l) (k + 1)) :=
+  jacFwd_decl m0 x0 act h
+
+open RV.WH in
+/-- components of the vector Jacobi coordinates are the scalar ones -/
+theorem c04_jacV_components (N : Nat) (m : Nat → K) (x : Nat → V3 K) (i : Nat) (h1 : 1 ≤ i) :
+    (jacV N m x i).x = jrel m (fun k => (x k).x) i ∧ (jacV N m x i).y = jrel m (fun k => (x k).y) i ∧
+    (jacV N m x i).z = jrel m (fun k => (x k).z) i := by
+  have hne : i ≠ 0 := by omega
+  refine ⟨?_, ?_, ?_⟩ <;> simp [jacV, hne, jrel, wsumV_x, wsumV_y, wsumV_z] <;> ring
+
+open RV.WH in
+/-- `reb_whfast_com_step` conserves P and L and moves the centre of mass by `τ·V` -/
+theorem c04_wh_com_step (N : Nat) (hN : 1 ≤ N) (m : Nat → K) (τ : K) (s : JS K) :
+    LJ N m (comStep τ s) = LJ N m s ∧ PJ N m (comStep τ s) = PJ N m s ∧
+    (comStep τ s).X 0 = s.X 0 + τ • s.V 0 :=
+  com_conserves N hN m τ s
+
+open RV.WH RV.Kepler in
+/-- `reb_whfast_kepler_step` in Jacobi coordinates: if every Jacobi body `i ≥ 1` is advanced by the
+    f-g update of RV/Model/Kepler.lean under the hypotheses of C03 (`KeplerStep`: the Stiefel
+    relations hold and `X` solves the universal Kepler equation for that body's mass parameter), then
+    P and L are conserved and the centre of mass is not moved.  Uses the f-g Wronskian (the statement
+    of C03's `c03_fg_angular_momentum`, re-derived in RV/Proofs/WHKepler.lean from the lemmas of
+    RV/Proofs/Kepler.lean). -/
+theorem c04_wh_kepler_step (N : Nat) (hN : 1 ≤ N) (m : Nat → K) (s s' : JS K)
+    (M dt : Nat → K) (r0 Xs : Nat → K) (g : Nat → Cs3 K)
+    (h0 : s'.X 0 = s.X 0 ∧ s'.V 0 = s.V 0)
+    (hk : ∀ i, 1 ≤ i → i < N →
+      KeplerStep (M i) (dt i) (r0 i) (Xs i) ⟨(s.X i).x, (s.X i).y, (s.X i).z, (s.V i).x, (s.V i).y, (s.V i).z⟩ (g i) ∧
+      newR (M i) (r0 i) ⟨(s.X i).x, (s.X i).y, (s.X i).z, (s.V i).x, (s.V i).y, (s.V i).z⟩ (g i) ≠ 0 ∧
+      (let q := fgUpdate (M i) (1 / r0 i)
+          (1 / newR (M i) (r0 i) ⟨(s.X i).x, (s.X i).y, (s.X i).z, (s.V i).x, (s.V i).y, (s.V i).z⟩ (g i))
+          (dt i) (g i).c1 (g i).c2 (g i).c3 ⟨(s.X i).x, (s.X i).y, (s.X i).z, (s.V i).x, (s.V i).y, (s.V i).z⟩
+       s'.X i = ⟨q.x, q.y, q.z⟩ ∧ s'.V i = ⟨q.vx, q.vy, q.vz⟩)) :
+    LJ N m s' = LJ N m s ∧ PJ N m s' = PJ N m s ∧ s'.X 0 = s.X 0 := by
+  apply kepler_conserves N hN m s s'
+  refine ⟨h0.1, h0.2, ?_⟩
+  intro i h1 h2
+  obtain ⟨ks, rne, hx, hv⟩ := hk i h1 h2
+  obtain ⟨l1, l2, l3⟩ := fg_angular_momentum' ks rne
+  rw [hx, hv]
+  ext
+  · simpa [Lx] using l1
+  · simpa [Ly] using l2
+  · simpa [Lz] using l3
+
+open RV.WH in
+/-- `reb_whfast_interaction_step` in Jacobi coordinates (`p_j[i].v += dt·a'_i`, `a'` = the Jacobi
+    transform of the inertial accelerations, plus the radial Jacobi term) with the forces of the BASIC
+    loop nest of gravity.c, every particle active, any `gravity_ignore_terms` (WHFast uses 1): P and
+    L are conserved, the centre of mass is not moved.  Chain: C02 Newton-3 + torque → Jacobi
+    decomposition of `Σ m x×a` → `Σ_{i≥1} μ_i x'_i × a'_i = 0`. -/
+theorem c04_wh_interaction_step (pref : K → Nat → Nat → K) (cfg : Cfg K) (N : Nat) (hN : 1 ≤ N)
+    (m : Nat → K) (x : Nat → V3 K) (heta : ∀ i, i < N → eta m i ≠ 0) (hall : cfg.nActive = N)
+    (a : Nat → V3 K) (ha : ∀ k, k < N → (accBasic pref cfg [0] (mkPs N m x))[k]? = some (a k))
+    (τ : K) (c : Nat → K) (s s' : JS K) (h : InteractionLike N m τ x a c s s') :
+    LJ N m s' = LJ N m s ∧ PJ N m s' = PJ N m s ∧ s'.X 0 = s.X 0 :=
+  interaction_conserves N hN m heta τ x a c s s'
+    (c02_basic_newton3 pref cfg [0] N m x hall a ha) (c02_basic_torque pref cfg N m x hall a ha) h
+
+open RV.WH in
+/-- hence **every schedule** made of Kepler steps (with or without the centre-of-mass step),
+    interaction steps and force evaluations — the WHFast kernels and correctors, SABA, in Jacobi
+    coordinates, as generated into RV/Gen/C01*.lean and replayed through the real primitives by
+    C01/C09 — conserves P and L for any number of operators, keeps `V_com` and moves the centre
+    of mass by (total centre-of-mass time)·`V_com`. -/
+theorem c04_wh_schedule_conserves (N : Nat) (hN : 1 ≤ N) (m : Nat → K) (heta : ∀ i, i < N → eta m i ≠ 0)
+    (ps : List (Prim K)) (s s' : JS K) (h : Runs N m ps s s') :
+    LJ N m s' = LJ N m s ∧ PJ N m s' = PJ N m s ∧ s'.V 0 = s.V 0 ∧
+    s'.X 0 = s.X 0 + comTime ps • s.V 0 :=
+  runs_conserve N hN m heta ps s s' h
+
+/-! ### democratic heliocentric coordinates (WHFast DH; frame of MERCURIUS / TRACE) -/
+
+open RV.WH in
+/-- DH decomposition (∀ N): `Σ m_i x_i × v_i = M R×V + Σ_{i≥1} m_i (x_i − x_0) × (v_i − V)` -/
+theorem c04_dh_decomposition (N : Nat) (hN : 1 ≤ N) (m : Nat → K) (x v : Nat → V3 K) (hM : Mtot N m ≠ 0) :
+    ∑ i ∈ Finset.range N, m i • V3.cross (x i) (v i)
+      = LD N m ⟨Rcom N m x, Rcom N m v, fun i => x i - x 0, fun i => v i - Rcom N m v⟩ :=
+  angmom_dh N hN m x v hM
+
+open RV.WH in
+/-- `reb_whfast_jump_step` in DH coordinates (every `Q_i += dt·(Σ_k m_k W_k)/m_0`) conserves L and P and
+    does not touch the centre of mass: `Σ_i m_i δ × W_i = (dt/m_0) p × p = 0`. -/
+theorem c04_dh_jump_step (N : Nat) (m : Nat → K) (τ : K) (s : DS K) :
+    LD N m (jumpDH N m τ s) = LD N m s ∧ PD N m (jumpDH N m τ s) = PD N m s ∧
+    (jumpDH N m τ s).R = s.R ∧ (jumpDH N m τ s).V = s.V :=
+  jump_conserves N m τ s
+
+open RV.WH in
+/-- `reb_whfast_interaction_step` in DH coordinates (`W_i += dt·a_i`, `i ≥ 1`) with the forces of the
+    BASIC loop nest for `gravity_ignore_terms = 2` (what WHFast-DH, MERCURIUS and TRACE request), every
+    particle active: L and P are conserved and `Σ_{i≥1} m_i W_i` (hence the star's implicit velocity)
+    is unchanged.  Uses `c02_basic_sources` (the star receives nothing), `c02_basic_newton3`,
+    `c02_basic_torque`. -/
+theorem c04_dh_interaction_step (kern : K → K) (soft : K) (tp : Bool) (N : Nat) (hN : 1 ≤ N)
+    (m : Nat → K) (x : Nat → V3 K) (a : Nat → V3 K)
+    (ha : ∀ k, k < N → (accBasic (fun s _ _ => kern s) ⟨N, tp, 2, soft⟩ [0] (mkPs N m x))[k]? = some (a k))
+    (τ : K) (s : DS K) (hQ : ∀ i, s.Q i = x i - x 0) :
+    LD N m (kickDH τ a s) = LD N m s ∧ PD N m (kickDH τ a s) = PD N m s ∧
+    (∑ i ∈ Finset.Ico 1 N, m i • (kickDH τ a s).W i) = ∑ i ∈ Finset.Ico 1 N, m i • s.W i := by
+  have ha0 : a 0 = 0 := by
+    have h0 := ha 0 (by omega)
+    rw [accBasic_declarative _ (fun _ _ _ => rfl) ⟨N, tp, 2, soft⟩ [0] (by intro G; simp) m x (le_refl N)
+      (by simp) (by omega)] at h0
+    rw [← Option.some.inj h0]
+    simp [Src]
+  exact kickDH_conserves N hN m τ x a s hQ ha0
+    (c02_basic_newton3 _ ⟨N, tp, 2, soft⟩ [0] N m x rfl a ha)
+    (c02_basic_torque _ ⟨N, tp, 2, soft⟩ N m x rfl a ha)
+
+open RV.WH in
+/-- Kepler step (each heliocentric body keeps its `Q×W`: f-g Wronskian) and com step in DH coordinates -/
+theorem c04_dh_kepler_and_com (N : Nat) (m : Nat → K) (τ : K) (s s' : DS K) (hR : s'.R = s.R) (hV : s'.V = s.V)
+    (h : ∀ i, 1 ≤ i → i < N → V3.cross (s'.Q i) (s'.W i) = V3.cross (s.Q i) (s.W i)) :
+    (LD N m s' = LD N m s ∧ PD N m s' = PD N m s) ∧
+    (LD N m { s with R := s.R + τ • s.V } = LD N m s ∧ PD N m { s with R := s.R + τ • s.V } = PD N m s) :=
+  ⟨keplerDH_conserves N m s s' hR hV h, comDH_conserves N m τ s⟩
+
 /-! ### merging collisions -/
 
 /-- `reb_collision_resolve_merge`: the survivor carries the summed mass, and its momentum and
@@ -249,6 +449,6 @@ example : (2 : ℚ) ≠ 0 ∧
   rcases this with rfl | rfl | rfl
   · right; simp [preM, mOf, ps, Finset.sum_range_succ]
   · left; simp [preM, mOf, ps, Finset.sum_range_succ]
-  · left; simp [preM, mOf, ps, Finset.sum_range_succ]; norm_num
+  · left; simp [preM, mOf, ps, Finset.sum_range_succ] <;> norm_num
 
 end RV.Diag
